@@ -402,6 +402,7 @@ theorem agree_callValue (hfiles : ∀ dir r p, findModule cfg fs dir r = some p 
   | int n => exact ⟨rfl, by simp⟩
   | mref p => exact ⟨rfl, by simp⟩
   | core n => exact ⟨rfl, by simp⟩
+  | native n => exact ⟨rfl, by simp⟩
   | null => exact ⟨rfl, by simp⟩
 
 theorem agree_execTAct (hfiles : ∀ dir r p, findModule cfg fs dir r = some p → p ∈ files) (hs : RecSound rec)
